@@ -266,7 +266,7 @@ def check(prop, tier="quick", seed=0, procs=16, n_sessions=None, budget_s=None, 
         for f in known:
             if f["property"] != prop or not f.get("probe"):
                 continue
-            pspec = dict(f["probe"], hash_seed=f.get("probe_hash_seed", 0))
+            pspec = dict(f["probe"], hash_seed=f.get("probe_hash_seed", 0), no_gate=True)
             pr = run_one(tpl, prop, tier, 0, cap_s, spec=pspec)
             if pr.get("verdict") == "violation" and match_known(prop, pr, [f]) is not None:
                 viol_known.setdefault(f["id"], []).append(pr)
